@@ -25,10 +25,12 @@ SPEC = {
             'guarded/unguarded by whether the theorem\'s guard (unique heaviest connected block at height >= 12) '
             'holds for the delivered set. non-trivial = the run contains an orphan or a reorganisation / orphan '
             'cascade; distinct = distinct Gallina case terms. Extended runs (kinds ext/..., case CExt, model '
-            'ModelExt.v), each on a fresh node: ext/fill-10240 (once): three trunk blocks and an unconnected block '
-            'wait in the pool, 10239 cheap unconnected blocks (random parent hash, never executed) fill it to '
-            'maxOrphanBlocks and push the oldest out one by one (two needed blocks and one unconnected one), the '
-            'trunk arrives, the dropped blocks are delivered again; ext/expiry(-redeliver): orders with orphans '
+            'ModelExt.v), each on a fresh node: ext/fill-10240 (once): a waiting block is connected while '
+            'oldestOrphan still points to it, three trunk blocks and an unconnected block wait in the pool, 10240 '
+            'cheap unconnected blocks (random parent hash, never executed) fill it to maxOrphanBlocks and overflow '
+            'it (the first removal hits the stale pointer: the pool stays one over its limit; the next ones push '
+            'out the oldest: an unconnected block and two needed blocks), the trunk arrives, the dropped blocks '
+            'are delivered again; ext/expiry(-redeliver): orders with orphans '
             'while types.SetTimeDelta jumps between -300 s, 0 and +300 s (ticks 0/3/6 in the model, ttl 5 ticks: '
             'an orphan received at tick 0 is expired at tick 6), a few unconnected blocks, optionally the whole '
             'tree again in creation order; ext/finalize-any|guarded|witness: EventSnowmanAcceptBlk messages to the '
